@@ -148,6 +148,7 @@ def pattern(rnd, nmem_hint):
 
 
 _PRESENCE = None
+_COLLISIONS = None
 
 
 def gen_cases(seed, n, corpus):
@@ -166,6 +167,19 @@ def gen_cases(seed, n, corpus):
         elif r < 0.65:
             a = mutate(rnd, arc.archive(c15.random_archive(rnd)))
             kind_in = 'mutated-generated'
+        elif r < 0.66:
+            # entries that collide on disk (the same benign name stored twice or as different kinds), extracted to the paths their
+            # headers name: calls that find something unexpected in place take failure paths ordinary archives never reach
+            global _COLLISIONS
+            if _COLLISIONS is None:
+                from . import c20
+                _COLLISIONS = c20.collision_archives(random.Random(12345), 'thorough')
+            name, members = rnd.choice(_COLLISIONS)
+            ops = []
+            for _ in range(len(members) + 4):
+                ops += [(rdh.OP_NEXT, 0)] + ([(rdh.OP_EXTRACT, 0)] if rnd.random() < 0.85 else [])
+            cases.append(rdh.RCase(arc.archive(members), ops, kind=rnd.choice([0, 2]), policy=rnd.choice([0, 1, 2, 3]), flags=rdh.F_HDRPATHS, meta='collision'))
+            continue
         elif r < 0.73:
             # a header from the name/path presence matrix (entry kinds the library has to classify: file, directory, symlink-mode
             # entry with and without a target, Amiga directory quirk - with and without name and path), followed by ordinary
